@@ -555,7 +555,9 @@ def loaded_kernel_schedules(psy_root):
     for idx, kern in enumerate(psy_root.walk(CodedKern)):
         sched = getattr(kern, "_kern_schedule", None)
         if sched is not None:
-            top = sched.root
+            # the kernel's own file/module, or just the routine once it has
+            # been module-inlined into the PSy-layer container
+            top = sched if sched.root is psy_root else sched.root
             out[idx] = fingerprint_psyir(top)
     return out
 
